@@ -155,7 +155,8 @@ claim("C12",
   "and the correspondence compares those registries of the real Schemas object before/after every failed update_schemas_with_data/process_model (dependencies may only grow); "
   "the case-insensitive sort key is injective on the pool of fixed import lines regenerated by gen_imports.py (probing get_imports/get_lazy_imports of every property class, required and optional, through the real parser, plus all "
   "import-looking literals of the sources): import_pool_keys_distinct, import_probe_complete, pool_imports_sorted_invariant; "
-  "dict views of attributes iterated by templates (enum.values.items()) are table sites too: str_enum sorts (dictsort), int_enum does not (known finding int_enum_twin_order). Correspondence: Coq sort models vs the real Jinja filter/sorted() on random lists, and for every generated module the lines "
+  "a sorted(set, key=...) in the parser counts as UNSORTED in the loop table (only the identity key is a total order on strings; Jinja's lower-case key needs the stated guard); create_retry_is_unconditional: _create_schemas queues every "
+  "failed component whatever the error's data is; dict views of attributes iterated by templates (enum.values.items()) are table sites too: str_enum sorts (dictsort), int_enum does not (known finding int_enum_twin_order). Correspondence: Coq sort models vs the real Jinja filter/sorted() on random lists, and for every generated module the lines "
   "written by each loop site == Order.emit (sorted flag from the regenerated table) of the set in the generating process's own enumeration order. Oracle: byte comparison of whole trees generated in fresh interpreters "
   "across PYTHONHASHSEEDs and across permutations of components.schemas / paths / operations inside a path item (diagnostic-free documents; documents share models as multipart/json/form bodies and responses across operations, "
   "have several media types per body, inline body schemas and name pressure), plus a variant permuting only the media types of request bodies (may reorder the branches of that operation's module by design, nothing else), thorough also with the ruff post-hooks; differences are classified line-exactly into the known findings "
